@@ -1,4 +1,5 @@
 import Pyrtma.Proofs.ManagerSafe
+import Pyrtma.Proofs.ManagerSimDrv
 /-!
 # C03 — no client can take the manager down
 
@@ -21,6 +22,14 @@ part is decided on the implementation on every run: any exception escaping `Mess
 is the observation `CRASH` (Spec clause C03).  DEBUG-level log forwarding is inside the model (every `logger.debug` call
 of the `run()` path; before it was, the DEBUG stream was judged by the history-based Spec only — that stream found
 C03-F13), so `model_never_crashes` covers a manager started with `log_level=DEBUG` too.
+
+For every history (the refinement link, `Proofs/ManagerSim*.lean`): `spec_liveness_clause_passes_on_model` — run the model
+on any well-formed history and give the history-based Spec (`Spec.runSpec`, the function the driver evaluates on what the
+real `MessageManager` did) the events the model itself wrote: the verdict contains **no C03 entry**.  The C03 clauses
+of the Spec are: `run()` was not terminated and played every round of the script; every frame the script delivers to a
+live connection is read (in the order of the script, `Spec.roundBody.go`) and nothing is read that was not pending; a
+connect request with a name that is not ascii is not acknowledged; no frame the manager wrote is malformed (payload not
+matching its header: `Proofs/ManagerSimLog.lean: run_lok` — the model's log never holds such a frame).
 -/
 namespace Pyrtma.C03
 open Pyrtma.Mgr
@@ -102,6 +111,37 @@ invariant, any nesting of failures) -/
 theorem forward_never_crashes (cfg : Cfg) (ok : CfgOK cfg) (n : Nat) (s : State) (g : Frame) (h : Good cfg s)
     (hn : need cfg s g ≤ n) : (forward cfg n s g).crashed = none :=
   (forward_safe ok n s g h hn).1.ok
+
+/-! ### The Spec's C03 clauses on every run of the model -/
+
+/-- **The Spec's C03 clauses hold on every run of the model.**  For every configuration meeting the side conditions
+(`CfgOK`, automatic fuel, CLIENT_CLOSED is not the ALL_MESSAGE_TYPES sentinel;
+`OrdPerm`: the iteration order of a Python `set` visits every element once — insertion order
+and its reverse, which the driver uses, are instances) and every history whose frames are read from connections (never
+from the manager's own table entry, uid 0 — true of every generated history), the verdict `Spec.runSpec` computes from
+the history and the model's own events has no C03 entry. -/
+theorem spec_liveness_clause_passes_on_model (cfg : Cfg) (ok : CfgOK cfg) (hfuel : cfg.fuel = 0) (hperm : OrdPerm cfg)
+    (hmt : cfg.mtClosed ≠ cfg.allTypes) (rs : List Round) (hwf : RoundsWF rs) :
+    (Spec.runSpec cfg rs (Pyrtma.Drv.Manager.modelRun cfg rs).1 none).errs.filter (·.1 == "C03") = [] :=
+  spec_passes_on_model ok hfuel hperm hmt rs hwf "C03" (by simp [proven]) (fun h => absurd h (by decide))
+
+/-- a history with a frame that is never read: connection 1 dies on the header of its first frame, its second frame of
+    the same round stays unread — and the Spec agrees that it was not pending any more -/
+def exHist : List Round :=
+  [{ accept := true }, { accept := true },
+   { reads := [{ uid := 1, hdrErr := true }, { uid := 2, h := { k := 1, mtype := 13, src := 11 } },
+               { uid := 1, h := { k := 2, mtype := 5000 } }], writable := [1, 2] }]
+
+example : RoundsWF exHist := by
+  intro r hr rd hrd
+  simp only [exHist, List.mem_cons, List.not_mem_nil, or_false] at hr
+  rcases hr with rfl | rfl | rfl <;> simp at hrd
+  rcases hrd with rfl | rfl | rfl <;> decide
+
+example : ((run {} exHist).mods.map (fun m => (m.uid, m.modId, m.connected))) = [(0, 0, true), (2, 11, true)] := by
+  decide +kernel
+
+example : (Spec.runSpec {} exHist (Pyrtma.Drv.Manager.modelRun {} exHist).1 none).errs = [] := by decide +kernel
 
 /-! ### Non-vacuity: the header fields of a broken frame are arbitrary -/
 example : (readOne {} { mods := [{ uid := 0 }, { uid := 1 }], nextUid := 1 }
